@@ -26,7 +26,9 @@ RULE = ("one run = (certificate gathered by the real tools from a simulated devi
         "deviations: foreign UI / signer header, powHSM message one byte short / long, other keys hash, "
         "keys hashed in another order, legacy vs current framing, UI message with another BTC key; "
         "operator side: one key replaced, a path renamed, BTC path missing, empty object, not an object, "
-        "invalid key, compressed keys; certificate side: target removed; root: other key / broken "
+        "invalid key, compressed keys, a device authorised for another path set with the matching keys "
+        "file; certificate side: target removed; the verify command asked again 0..2 times in the same "
+        "process under another / the same root; root: other key / broken "
         "self-signature / expired (SGX, virtual clock); non-trivial = the verify command ran; distinct = "
         "(platform, deviation, operator-side alteration, root state, outcome)")
 TIERS = {"quick": {"runs": 8000, "wall": 240}, "thorough": {"runs": 150000, "wall": 3000}}
